@@ -150,8 +150,8 @@ func initPool() {
 			{Key: "CDS", Loc: ljn(lrg(4, 10), lrg(14, 20)), Quals: [][]string{{"gene", "alpha"}, {"product", "alpha protein"}, {"codon_start", "1"}, {"label", "c1"}}},
 			{Key: "gene", Loc: lco(lrg(30, 48)), Quals: [][]string{{"gene", "beta"}, {"label", "g2"}}},
 			{Key: "CDS", Loc: lco(lrg(30, 48)), Quals: [][]string{{"gene", "beta"}, {"product", "beta protein"}, {"label", "c2"}}},
-			{Key: "misc_feature", Loc: lrg(16, 34), Quals: append(q("m1"), []string{"note", "overlaps both"})},
-			{Key: "variation", Loc: lpt(25), Quals: q("v1")},
+			{Key: "misc_feature", Loc: lrg(16, 34), Quals: append(q("m1"), []string{"note", "overlaps both", "a second note"})},
+			{Key: "variation", Loc: lpt(25), Quals: append(q("v1"), []string{"note", ""})},
 		})
 		small2 := smallRecord("SMALLB", false, 45, []Feat{
 			{Key: "source", Loc: lrg(0, 45), Quals: [][]string{{"organism", "synthetic construct"}}},
@@ -196,16 +196,47 @@ func initPool() {
 			"host.gb": small2, "host2.gb": small, "host3.gb": host3,
 			"table1.txt":  []byte("misc_feature    3..8\n                /note=\"added one\"\n"),
 			"table2.txt":  []byte("misc_feature    3..8\n                /note=\"added two\"\nvariation       12\n"),
-			"query.fasta": []byte(">q\ncatg\n"), "query2.fasta": []byte(">q\ngacc\n"),
+			"query.fasta": []byte(">q\ncctta\n"), "query2.fasta": []byte(">q\ncgcac\n"),
 		} {
 			if err := os.WriteFile(filepath.Join(poolDir, name), data, 0o644); err != nil {
 				panic(err)
 			}
+			poolFiles[name] = data
 		}
 	})
 }
 
 // expandArgs replaces {name} by the path of the pool file of that name.
+// poolFiles: the original content of every secondary file of the pool; secPartner: the file whose content takes its
+// place when a step asks for the alternative content at the same path.
+var (
+	poolFiles  = map[string][]byte{}
+	secPartner = map[string]string{"query.fasta": "query2.fasta", "query2.fasta": "query.fasta", "guest.gb": "guest2.gb", "guest2.gb": "guest.gb", "guest3.gb": "guest.gb",
+		"guest.fasta": "query.fasta", "guest2.fasta": "query2.fasta", "host.gb": "host2.gb", "host2.gb": "host.gb", "host3.gb": "host.gb", "table1.txt": "table2.txt", "table2.txt": "table1.txt"}
+)
+
+// setSecondary writes, for every {file} among args, either its own content or (alt) its partner's content to the
+// file's path: the same path then holds other content, as when a user edits a query or guest file between two runs.
+func setSecondary(args []string, alt bool) {
+	initPool()
+	for _, a := range args {
+		if !(strings.HasPrefix(a, "{") && strings.HasSuffix(a, "}")) {
+			continue
+		}
+		name := a[1 : len(a)-1]
+		data := poolFiles[name]
+		if alt {
+			data = poolFiles[secPartner[name]]
+		}
+		if data == nil {
+			panic("harness: no content for pool file " + name)
+		}
+		if err := os.WriteFile(filepath.Join(poolDir, name), data, 0o644); err != nil {
+			panic(err)
+		}
+	}
+}
+
 func expandArgs(args []string) []string {
 	initPool()
 	out := make([]string, len(args))
